@@ -426,7 +426,7 @@ def _pkey(p):
     return pathlib.PurePosixPath(str(p)).as_posix()
 
 
-SMALL_PTS = 8  # injectivity of the checksum abstraction is also instantiated at offsets 0..SMALL_PTS-1
+SMALL_PTS = 17  # injectivity of the checksum abstraction is also instantiated at offsets 0..SMALL_PTS-1
 ALT_SRC = 99  # source id of the unrelated second file content
 ALT_CK = 100  # offset of its checksum tokens in the first argument of Hs
 
